@@ -55,3 +55,8 @@ def c04(ctx):
 @register("C03")
 def c03(ctx):
     return stratfam.check_c03(ctx)
+
+
+@register("C05")
+def c05(ctx):
+    return evalfam.check_c05(ctx)
